@@ -224,6 +224,31 @@ def defects():
         ch['attrs']['element_limit'] = {'v': [1], 'units': None, 'route': 'plain'}
         return True
 
+    @d('header-id-too-long-assigned-late', True)
+    def _(spec, R):
+        lf = spec['lfs'][0]
+        lf['fh_route'] = 'late'
+        lf['fh_id'] = R.choice(['H' * 66, 'I' * 67, 'J' * 130, 'K' * 300])
+        spec['object_routes'] = False
+        return True
+
+    @d('sequence-number-too-long-assigned-late', True)
+    def _(spec, R):
+        lf = spec['lfs'][0]
+        lf['fh_route'] = 'late'
+        lf['fh_sequence_number'] = R.choice([10**10, 10**10 + 7, 10**11, 10**15])
+        spec['object_routes'] = False
+        return True
+
+    @d('header-values-at-their-limits-assigned-late', False)
+    def _(spec, R):
+        lf = spec['lfs'][0]
+        lf['fh_route'] = 'late'
+        lf['fh_id'] = R.choice(['H' * 65, 'I' * 64])
+        lf['fh_sequence_number'] = R.choice([10**10 - 1, 999999999])
+        spec['object_routes'] = False
+        return True
+
     @d('copy-number-overflow', True)
     def _(spec, R):
         lf = spec['lfs'][0]
@@ -307,6 +332,7 @@ def run(tier):
         from harness import convert
         from harness.filegen import ATTRS
         convert.run_stream(chk, model, bres, rng('C12', 'setters'), 8 if tier == 'quick' else 60, ATTRS, stream='setters')
+        convert.run_numberlike(chk, model, bres, rng('C12', 'number-like'), 400 if tier == 'quick' else 4000, ATTRS)
     finally:
         shutil.rmtree(tmp, ignore_errors=True)
     return finish(chk, bres, THEOREMS,
